@@ -194,6 +194,35 @@ def _record_traces(ctx, b, path):
                 events.append({"op": "represent", "dist": list(w), "n": n, "r": r, "id": len(events) + 1})
                 if dict(d.distribution_dict) != before:
                     ctx.violation("represent:mutated", "get_measurements_representing_distribution modified the distribution", events[-1])
+                if rep == 0 and r[0] >= 0:
+                    # what was returned is the caller's: it is edited (a shot overwritten by a tuple outside the support, one appended)
+                    # and the SAME request is made again - the second answer is judged like any other
+                    try:
+                        junk = tuple([1] * len(outcomes[0])) if k < 4 else (1, 1, 1)
+                        m.bitstrings[0] = junk
+                        m.bitstrings.append(junk)
+                        cnt2 = Measurements.get_measurements_representing_distribution(d, n).get_counts()
+                        r2 = [int(cnt2.get(o, 0)) for o in outcomes]
+                        if sum(cnt2.values()) - sum(r2):
+                            r2 = [-1] * k
+                    except Exception:
+                        r2 = [-2] * k
+                    events.append({"op": "represent", "dist": list(w), "n": n, "r": r2, "id": len(events) + 1, "again": True})
+    # wider supports, where rounding overshoots or undershoots the request by several shots (all the random correction branches);
+    # every call is repeated with fresh draws
+    for k, ws in ((6, [1] * 6), (7, [3, 1, 1, 1, 1, 1, 1]), (9, [1] * 9), (13, [1] * 13), (13, [2, 1] * 6 + [1])):
+        outcomes = [format(i, "04b") for i in range(k)]
+        for n in ((k + 1) // 2, k // 2 + 2, 3 * k // 2, 3 * k // 2 + 1):
+            for rep in range(6 if ctx.tier == "quick" else 40):
+                d = MeasurementOutcomeDistribution({o: x / sum(ws) for o, x in zip(outcomes, ws)})
+                try:
+                    cnt = Measurements.get_measurements_representing_distribution(d, n).get_counts()
+                    r = [int(cnt.get(o, 0)) for o in outcomes]
+                    if sum(cnt.values()) - sum(r):
+                        r = [-1] * k
+                except Exception:
+                    r = [-2] * k
+                events.append({"op": "represent", "dist": list(ws), "n": n, "r": r, "id": len(events) + 1})
     # the binding must bite: two CANARY records - recorded results with one field corrupted - have to be rejected by the
     # trace specification on every run (one shot too many; a shot on an outcome of probability zero)
     sc = dict(next(e for e in events if e["op"] == "scale" and e["r"][0] >= 0), canary=True)
